@@ -134,3 +134,93 @@ pub fn c05_perm_empty() {
     assert!(res == Ok(()));
     assert!(calls == 0, "empty input has no arrangement to deliver (the caller handles the empty case)");
 }
+
+
+// ---- rank-based variant (cheaper: no pairwise comparison): each delivered arrangement is mapped to its
+// lexicographic rank relative to the input order; every rank must be hit at most once and exactly n! calls made.
+pub struct RankRec<const N: usize, const F: usize> {
+    pub orig: [u8; N],
+    pub seen: [bool; F],
+    pub calls: usize,
+    pub fail_at: usize,
+    pub bad: bool,
+}
+pub fn rank_record<const N: usize, const F: usize>(r: &mut RankRec<N, F>, p: &[u8]) -> Result<(), u8> {
+    if p.len() != N {
+        r.bad = true;
+        return Ok(());
+    }
+    // position of each delivered element in the original order
+    let mut idx = [0usize; N];
+    let mut i = 0;
+    while i < N {
+        let mut found = N;
+        let mut j = 0;
+        while j < N {
+            if r.orig[j] == p[i] {
+                found = j;
+            }
+            j += 1;
+        }
+        if found == N {
+            r.bad = true; // not an element of the input
+            return Ok(());
+        }
+        idx[i] = found;
+        i += 1;
+    }
+    // Lehmer code -> rank (idx is a permutation of 0..N iff no rank collision / duplicates are caught by `seen`)
+    let mut rank = 0usize;
+    let mut i = 0;
+    while i < N {
+        let mut smaller = 0;
+        let mut j = i + 1;
+        while j < N {
+            if idx[j] < idx[i] {
+                smaller += 1;
+            }
+            if idx[j] == idx[i] {
+                r.bad = true; // an element delivered twice in one arrangement
+            }
+            j += 1;
+        }
+        rank = rank * (N - i) + smaller;
+        i += 1;
+    }
+    if rank >= F || r.seen[rank] {
+        r.bad = true; // an arrangement delivered twice
+    } else {
+        r.seen[rank] = true;
+    }
+    let c = r.calls;
+    r.calls += 1;
+    if c == r.fail_at { Err(c as u8) } else { Ok(()) }
+}
+
+macro_rules! rank_harness {
+    ($name:ident, $n:expr, $f:expr, $unwind:expr) => {
+        #[cfg(kani)]
+        #[kani::proof]
+        #[kani::unwind($unwind)]
+        pub fn $name() {
+            let orig: [u8; $n] = distinct::<$n>();
+            let mut v = orig;
+            let fail_at: usize = kani::any();
+            kani::assume(fail_at <= $f);
+            let mut r = RankRec::<$n, $f> { orig, seen: [false; $f], calls: 0, fail_at, bad: false };
+            let res = for_each_permutation_of(&mut v, |p| rank_record(&mut r, p));
+            kani::cover!(fail_at == $f && r.calls == $f, "full enumeration");
+            assert!(!r.bad, "an arrangement is not a permutation of the input, or was delivered twice");
+            if fail_at < $f {
+                assert!(res == Err(fail_at as u8), "callback error not propagated");
+                assert!(r.calls == fail_at + 1, "enumeration continued after the callback failed");
+            } else {
+                assert!(res == Ok(()), "spurious error");
+                assert!(r.calls == $f, "number of arrangements is not n!");
+            }
+        }
+    };
+}
+rank_harness!(c05_rank_4, 4, 24, 26);
+rank_harness!(c05_rank_5, 5, 120, 122);
+rank_harness!(c05_rank_6, 6, 720, 722);
